@@ -48,7 +48,7 @@ def gen(rng, tier, index):
     backends = ('t',) if rng.random() < 0.6 else tuple(pargen.BACKENDS_POOL)
     while True:
         desc, a = pargen.gen_desc(
-            rng, max_n=7, min_n=1, max_up=2, max_down=1, falsy_p=0.12,
+            rng, max_n=7, min_n=1, max_up=2, max_down=1, falsy_p=0.12, batched_p=0.5,
             par_kw=dict(backends=backends, max_extra_b=2, catch_p=0.45))
         pi = pargen.par_index(desc)
         # batch(drop_last=True) makes sequential *iteration* evaluate tail
